@@ -528,7 +528,7 @@ fn freq_check(r: &mut Report, name: &str, trials: u64, hits: u64, p: f64) {
 
 /// frequency oracles on the real code alone (C12)
 fn frequency_oracles(r: &mut Report, seed: u64, big: bool, mutant: Mutant) {
-    let n: usize = if big { 2_000_000 } else { 200_000 };
+    let n: usize = if big { 4_000_000 } else { 200_000 };
     let mut rng = LinRng::new(vec![], SplitMix::derive(seed ^ 0xF4E9, 0));
     for rate in [0.05f32, 0.25, 0.5, 0.9] {
         let g: Vec<i32> = (0..n).map(tag_i32).collect();
@@ -590,12 +590,20 @@ fn frequency_oracles(r: &mut Report, seed: u64, big: bool, mutant: Mutant) {
 
 // ---------------------------------------------------------------- entry points
 
-pub fn run(cfg: &Cfg) -> Report { run_mut(cfg, Mutant::None) }
-pub fn run_rates(cfg: &Cfg) -> Report { run_rates_with(cfg, Mutant::None) }
+/// `UEC_LIN_MUTANT=<name>` (testing the check itself, never set by `./check`): see `fam_xo::env_mutant`.
+fn env_mutant() -> Mutant {
+    let all = [Mutant::WrLe, Mutant::WrInverted, Mutant::WrF64, Mutant::OolOffByOne, Mutant::UmadNewBeforeOld, Mutant::UmadNewNotDeleted, Mutant::UmadRatesSwapped,
+        Mutant::UmadEmptyAlwaysAdds, Mutant::UmadDeleteTwice, Mutant::CloseOffByOne, Mutant::CloseInverted];
+    let want = std::env::var("UEC_LIN_MUTANT").unwrap_or_default();
+    all.into_iter().find(|m| format!("{m:?}") == want).unwrap_or(Mutant::None)
+}
+
+pub fn run(cfg: &Cfg) -> Report { run_mut(cfg, env_mutant()) }
+pub fn run_rates(cfg: &Cfg) -> Report { run_rates_with(cfg, env_mutant()) }
 
 pub fn run_mut(cfg: &Cfg, mutant: Mutant) -> Report {
     let seed = cfg.seed;
-    let n: u64 = if cfg.thorough { 400_000 } else { 40_000 };
+    let n: u64 = if cfg.thorough { 1_500_000 } else { 40_000 };
     let mut rep = run_sharded(&cfg.driver, cfg.threads, n, || Report::new("mut", RULE_MUT), |d, r, i| {
         if i % 2 == 0 { case_flip(d, r, seed, i, mutant) } else { case_umad(d, r, seed, i, mutant, false) }
     });
@@ -606,8 +614,8 @@ pub fn run_mut(cfg: &Cfg, mutant: Mutant) -> Report {
 
 pub fn run_rates_with(cfg: &Cfg, mutant: Mutant) -> Report {
     let seed = cfg.seed ^ 0x12;
-    let n: u64 = if cfg.thorough { 300_000 } else { 30_000 };
-    let n_close: u64 = if cfg.thorough { 100_000 } else { 10_000 };
+    let n: u64 = if cfg.thorough { 1_000_000 } else { 30_000 };
+    let n_close: u64 = if cfg.thorough { 400_000 } else { 10_000 };
     let mut rep = run_sharded(&cfg.driver, cfg.threads, n + n_close + 64, || Report::new("rates", RULE_RATES), |d, r, i| {
         if i < n {
             match i % 5 { 0 => case_flip(d, r, seed, i, mutant), 1 | 2 => case_umad(d, r, seed, i, mutant, true), 3 => case_gene(d, r, seed, i, mutant), _ => case_bits(d, r, seed, i) }
@@ -623,7 +631,7 @@ pub fn run_rates_with(cfg: &Cfg, mutant: Mutant) -> Report {
         }
     });
     frequency_oracles(&mut rep, seed, cfg.thorough, mutant);
-    rep.notes.push(format!("{n} seeded tape-level cases; with_uniform_close_probability for n = 1..={n_close} and 64 large n bit for bit; frequency oracles on {} samples each", if cfg.thorough { 2_000_000 } else { 200_000 }));
+    rep.notes.push(format!("{n} seeded tape-level cases; with_uniform_close_probability for n = 1..={n_close} and 64 large n bit for bit; frequency oracles on {} samples each", if cfg.thorough { 4_000_000 } else { 200_000 }));
     if mutant != Mutant::None { rep.notes.push(format!("SELFTEST: mutant {mutant:?}")); }
     rep
 }
